@@ -451,6 +451,39 @@ pub open spec fn asm_inv(c: &Context, o: &Output) -> bool {
     ensures toks(r@) == @TOKS(P:q L:word), //# C07,C11,C10 asm.string_instruction_text_carries_its_operand_size
 //@end
 
+// ---- macro definition: the table gains exactly this name (its body text is built with Regex::replace_all: not modelled), nothing
+// is emitted and nothing else changes
+pub struct Regex;
+pub struct RegexResult;
+pub struct Replaced;
+pub struct Captures;
+impl Regex {
+    // assumed total: the pattern is \b<identifier>\b
+    #[verifier::external_body]
+    pub fn new(p: &String) -> (r: RegexResult) { unimplemented!() }
+    #[verifier::external_body]
+    pub fn replace_all<F: Fn(&Captures) -> String>(&self, text: &String, rep: F) -> (r: Replaced) { unimplemented!() }
+}
+impl RegexResult {
+    #[verifier::external_body]
+    pub fn unwrap(self) -> (r: Regex) { unimplemented!() }
+}
+impl Replaced {
+    #[verifier::external_body]
+    pub fn to_string(&self) -> (r: String) { unimplemented!() }
+}
+//@action src/lib/preprocessor/preprocessor.rs macro_def = quote_macro, name_string, "(", CommaSepList<name_string>, ")", "->", r#"[_a-zA-Z0-9\\[\\]\\(\\), ]*<-"# as as_macro_def
+//@contract
+//@strslice
+//@dropunused
+    requires vstd::std_specs::hash::obeys_key_model::<String>(), s.is_ascii(), s@.len() >= 2,      // the body token ends in `<-`
+    ensures
+        final(context).macro_map@.contains_key(name), //# C13 macro.definition_enters_the_table_under_its_name
+        final(context).macro_map@ == old(context).macro_map@.insert(name, final(context).macro_map@[name]), //# C13 macro.definition_changes_no_other_entry
+        final(context).macro_nesting_counter@ == old(context).macro_nesting_counter@, final(context).label_map@ == old(context).label_map@,
+        final(context).fn_map@ == old(context).fn_map@, final(context).mapper == old(context).mapper, final(context).data_counter == old(context).data_counter,
+//@end
+
 // ---- macro arguments (general_string): a memory operand keeps its size keyword, a constant is handed on by its value
 //@action src/lib/preprocessor/preprocessor.rs general_string = quote_byte_length, memory_addr as as_macro_arg_byte_mem
 //@contract
